@@ -55,6 +55,9 @@ def stub(argv: list[str]) -> int:
         try:
             c, _ = s.accept()
             c.close()
+            # like a real worker, whose idle timer restarts with every connection: a worker that has just
+            # accepted one (the launcher's probe) keeps accepting for a while instead of vanishing in the same instant
+            end = max(end, time.time() + 1.5)
         except TimeoutError:
             continue
         except OSError:
